@@ -12,6 +12,7 @@ import (
 	"github.com/klev-dev/klevdb/pkg/index"
 	"github.com/klev-dev/klevdb/pkg/message"
 	"github.com/klev-dev/klevdb/pkg/segment"
+	"github.com/klev-dev/klevdb/pkg/vhook"
 )
 
 type reader struct {
@@ -101,6 +102,7 @@ func (r *reader) Consume(offset, maxCount int64) (int64, []message.Message, erro
 		return nextOffset, nil, nil
 	}
 
+	vhook.At("reader.afterIndex")
 	position, maxPosition, nextOffset, err := index.Consume(offset)
 	switch {
 	case err != nil:
@@ -114,6 +116,7 @@ func (r *reader) Consume(offset, maxCount int64) (int64, []message.Message, erro
 		return OffsetInvalid, nil, err
 	}
 	defer r.messagesInuse.Add(-1)
+	vhook.At("reader.afterGetMessages")
 
 	msgs, err := messages.Consume(position, maxPosition, maxCount)
 	if err != nil {
@@ -319,6 +322,7 @@ func (r *reader) getIndexMarked() (indexer, error) {
 		return ix, nil
 	}
 	r.indexMu.RUnlock()
+	vhook.At("reader.getIndex.beforeLoad")
 
 	r.indexMu.Lock()
 	defer r.indexMu.Unlock()
@@ -344,6 +348,7 @@ func (r *reader) getMessages() (*message.Reader, error) {
 		return msgs, nil
 	}
 	r.messagesMu.RUnlock()
+	vhook.At("reader.getMessages.beforeLoad")
 
 	r.messagesMu.Lock()
 	defer r.messagesMu.Unlock()
@@ -383,6 +388,7 @@ func (r *reader) GC(unusedFor time.Duration) error {
 	}
 
 	r.closeIndex()
+	vhook.At("reader.gc.afterCloseIndex")
 
 	r.messagesMu.Lock()
 	defer r.messagesMu.Unlock()
